@@ -231,6 +231,7 @@ type WorkerReport struct {
 	Samples        []json.RawMessage `json:"samples"`
 	HashFile       string            `json:"hash_file"`
 	NextRun        int               `json:"next_run"`
+	Audits         int               `json:"history_audits"`
 }
 
 func addMap(dst, src map[string]int) {
@@ -239,7 +240,7 @@ func addMap(dst, src map[string]int) {
 	}
 }
 
-const raceOpts = "halt_on_error=0 exitcode=0 history_size=2"
+const raceOpts = "halt_on_error=0 exitcode=0 atexit_sleep_ms=0 history_size=2"
 
 // altWorker: in the thorough tier every fourth batch worker (and the matching
 // determinism traces, w >= 5000) runs the binary built by the second toolchain.
@@ -687,6 +688,7 @@ func runCheck(cfg *config) int {
 		agg.BuildErrors += r.BuildErrors
 		agg.FreeRuns += r.FreeRuns
 		agg.StrayRuns += r.StrayRuns
+		agg.Audits += r.Audits
 		if r.Race {
 			agg.Race = true
 		}
@@ -892,6 +894,7 @@ func runCheck(cfg *config) int {
 			"controlled":                       agg.FreeRuns == 0,
 			"uncontrolled_fallback_runs":       agg.FreeRuns,
 			"stray_goroutine_runs":             agg.StrayRuns,
+			"history_audits_in_fresh_process":  agg.Audits,
 			"watchdog_restarts":                br.watchdogs,
 			"pool_build_rejections":            agg.BuildErrors,
 			"determinism_selftest":             map[string]interface{}{"runs_compared": detRuns, "processes": detProcs, "divergences": len(detProblems), "attributed_to_library_constructs": detWarnings},
